@@ -8,6 +8,7 @@ mod model;
 mod props;
 mod run;
 mod stamp;
+mod subj;
 mod threads;
 mod value;
 mod vtime;
